@@ -706,6 +706,29 @@ fn scenarios_c04(tier: &str) -> Vec<Scenario> {
                 }
             }
         }
+        // an obstacle on the FAR edge of the excluded yaw arc: a motion across the seam (both ends inside the
+        // interval) enters the excluded arc and is blocked only after it; a planner that keeps the last valid
+        // state of a blocked motion keeps a state outside the bounds, one step away from the goal region
+        for kit in ["Compound", "SE2"] {
+            let b = base_of(kit);
+            let a = |x: f64, y: f64, t: f64| V::Cmp(vec![V::Rv(vec![x, y]), V::So2(t)]);
+            let alphabet = vec![a(0.5, 2.0, 2.9), a(0.5, 2.0, 2.9), a(0.5, 2.0, -2.9), a(1.0, 2.0, 2.95), a(1.0, 2.0, 2.9), a(1.5, 2.0, 0.0), a(0.5, 2.5, -2.95), a(2.5, 2.0, 2.0)];
+            for &sm in &[1.0, 1e6] {
+                for pk in Pk::ALL {
+                    let mut sc = b.scenario(b.world_named("far-edge-of-excluded-arc-blocked", vec![ObstSpec::Arc(-3.13, -2.97)]), b.params(pk, sm, 1.5, 0.0), &format!("C04/{kit}/ang[-3,3]/far-edge-blocked/{}x{sm}", pk.name()));
+                    sc.spec = if kit == "SE2" {
+                        Spec::Se2 { weight: 0.5, bounds: Some(vec![(0.0, 4.0), (0.0, 4.0), (-3.0, 3.0)]) }
+                    } else {
+                        Spec::Cmp { parts: vec![Spec::Rv { dim: 2, bounds: Some(vec![(0.0, 4.0), (0.0, 4.0)]), frac: None }, Spec::So2 { bounds: Some((-3.0, 3.0)), frac: None }], weights: vec![1.0, 0.5] }
+                    };
+                    sc.alphabet = alphabet.clone();
+                    sc.start = alphabet[0].clone();
+                    sc.goal_balls = vec![(alphabet[3].clone(), 0.1)];
+                    sc.goal_samples = vec![alphabet[3].clone(), alphabet[4].clone()];
+                    out.push(sc);
+                }
+            }
+        }
         let b = base_of("SE3");
         for &sm in &steps {
             for pk in Pk::ALL {
